@@ -2,7 +2,6 @@ package main
 
 import (
 	"fmt"
-	"sort"
 	"strings"
 
 	"github.com/tsawler/tabula/rag"
@@ -270,13 +269,4 @@ func abbrev(t []string) string {
 		return strings.Join(t[:6], " ") + " ... " + strings.Join(t[len(t)-3:], " ")
 	}
 	return strings.Join(t, " ")
-}
-
-func sortedKeys(m map[string]verdict) []string {
-	var k []string
-	for s := range m {
-		k = append(k, s)
-	}
-	sort.Strings(k)
-	return k
 }
